@@ -137,6 +137,11 @@ def directed(tier: str) -> list:
 
 
 def execute(doc: dict) -> dict:
+    return core.confirm_on_legal_history(doc, _execute_full(doc),
+                                         _execute_full, ("scribble_temp",))
+
+
+def _execute_full(doc: dict) -> dict:
     """A scenario may carry a twin: a second, different instance with the SAME
     name whose objectives are created and used after the first ones (state keyed
     by the instance name must not leak between them)."""
